@@ -261,7 +261,8 @@ package parsley
 //@ interface parsley.Parser.Parse(p Parser, ctx *Context, lrc data.IntMap, pos Pos) (n Node, cp data.IntSet, err Error)
 //@   requires [ctx] WfCtx(ctx) && WfCache(ctx) && InInput(ctx.reader, pos)
 //@   requires [floor;C02] pos > GhostFloorPos || (pos == GhostFloorPos && forall k int :: data.MapOf(lrc)[k] >= data.MapOf(GhostFloorLrc)[k])
-//@   ensures  [ctx] WfCtx(ctx) && WfCache(ctx)
+//@   ensures  [ctx] WfCtx(ctx)
+//@   ensures  [cache] WfCache(ctx)
 //@   ensures  [PC1;C04] n == nil && err == nil ==> GhostCurtailed
 //@   ensures  [PC2;C07] n != nil ==> NodeOK(n) && (ListSpare(n) == 0 || freshid(ListArr(n)))
 //@   ensures  [PC3;C02] n != nil ==> EndsWithin(n, pos, Eof(ctx.reader, pos))
@@ -281,3 +282,7 @@ package parsley
 //@   ghost_entry GhostFloorLrc = lrc
 //@   ghost_return GhostFloorPos = old(GhostFloorPos)
 //@   ghost_return GhostFloorLrc = old(GhostFloorLrc)
+
+//@ func NewErrorf(pos Pos, format string, values ...interface{}) (r Error)
+//@   ensures r != nil && r.Pos() == pos && typeis[err](r)
+//@   assigns nothing
